@@ -379,7 +379,11 @@ def active_regs(conn):
     return sorted(r.index for r in conn._builder._mem_mgr._active_registers)
 
 
-def run_program(repo, prog, script, max_qubits=5, record_active=False):
+class HangError(Exception):
+    pass
+
+
+def run_program(repo, prog, script, max_qubits=5, record_active=False, timeout_s=10):
     """Run on a fresh in-process pipeline.  Returns the observation dict:
        status 'ok' | 'error'; error -> (top-level statement index, exception class)."""
     from sdk_pipeline import Pipeline
@@ -394,6 +398,13 @@ def run_program(repo, prog, script, max_qubits=5, record_active=False):
 
     it = Interp(conn, pipe, on_stmt=on_stmt if record_active else None)
     obs = dict(status="ok")
+    import signal
+
+    def on_alarm(signum, frame):
+        raise HangError(f"no result after {timeout_s}s (the controller does not terminate)")
+
+    old = signal.signal(signal.SIGALRM, on_alarm)
+    signal.setitimer(signal.ITIMER_REAL, timeout_s)
     try:
         it.run(prog)
         if not prog or prog[-1][0] != "flush":
@@ -402,6 +413,9 @@ def run_program(repo, prog, script, max_qubits=5, record_active=False):
         raise
     except Exception as e:  # noqa  (any failure of the SDK or the controller)
         obs = dict(status="error", at=it.top_index, exc=type(e).__name__, msg=str(e)[:200])
+    finally:
+        signal.setitimer(signal.ITIMER_REAL, 0)
+        signal.signal(signal.SIGALRM, old)
     obs["protos"] = it.protos
     obs["flushes"] = it.flushes
     obs["trace"] = canon_trace(pipe.gate_trace())
@@ -412,10 +426,8 @@ def run_program(repo, prog, script, max_qubits=5, record_active=False):
         obs["final_arrays"] = {a: _plain(v) for a, v in pipe.arrays().items()}
     except Exception:  # noqa
         obs["final_arrays"] = None
-    try:
-        conn.close()
-    except Exception:  # noqa
-        pass
+    # no conn.close(): it would flush (and execute) whatever a failed run left pending; the next
+    # Pipeline resets the shared memories and application ids
     return obs
 
 
